@@ -91,7 +91,7 @@ class CallMixin:
             if len(s3.pc) != len(sub.pc) and False:
                 pass
             ty = ty_of(v)
-            comps = [z3.Lambda([kv], t) for t in to_terms(v, ty)]
+            comps = [defined_array(st1, t.sort(), lambda k_, t=t: z3.substitute(t, (kv, k_)), "comp") for t in to_terms(v, ty)]
             # obligations raised while evaluating the element (index checks) were recorded with k free: acceptable,
             # they are universally quantified by being free constants.
             st1.heap.update({kk: vv for kk, vv in s3.heap.items() if kk not in st1.heap})
@@ -332,6 +332,8 @@ class CallMixin:
         tag = "call[%s]@%s" % (c.qual, line)
         self.used_contracts.add(c.key)
         pre = st.fork()
+        for g, expr in c.ghost.items():
+            env[g] = self.spec_val(expr, pre, ctx, env, old=pre)
         extra = c.per_case.get(c.case_names[ci], {})
         for j, (_t, r) in enumerate(c.requires + [("", x) for x in extra.get("requires", [])]):
             self.oblige(st, "%s::requires#%d" % (tag, j), self.spec_bool(r, st, ctx, env, old=pre), line, kind="precondition")
@@ -683,7 +685,7 @@ class CallMixin:
             if cnt is not None and adv is None:
                 kv = z3.Int(fresh_name("k"))
                 v = el(st, kv)
-                comps = [z3.Lambda([kv], t) for t in to_terms(coerce(v, ety), ety)]
+                comps = [defined_array(st, t.sort(), lambda k_, t=t: z3.substitute(t, (kv, k_)), "lst") for t in to_terms(coerce(v, ety), ety)]
                 return k(st, new_list(st, ety, z3.simplify(cnt), comps))
             raise Unsupported("list() of %r" % (x,))
         if name == "next":
